@@ -8,6 +8,7 @@ what C05 establishes for the lcov writer/reader.
 -/
 import GrcovModel.Props.C01
 import GrcovModel.Lemmas.LcovWriter
+import GrcovModel.Lemmas.LcovIterate
 namespace Grcov.Props.C06
 open Grcov AList Grcov.Props.C01 Grcov.Lcov
 
@@ -109,7 +110,357 @@ theorem C06_sharding_lcov (shards direct : Tree Cov) (h : ∀ c ∈ shards.leave
   obsEq_trans (evalSharded_lcov shards h).1
     (C01_grouping_invariant shards direct (fun c hc => (h c hc).1) p)
 
-/-- non-vacuity: with the identity as round trip the hypothesis holds -/
-example : ∀ c : Cov, c.WF → ObsEq (id c) c ∧ (id c).WF := fun c h => ⟨obsEq_refl c, h⟩
+/-- non-vacuity: the lcov round trip `rtCov` satisfies the hypothesis of `C06_sharding` on records as
+the readers produce them, and it is not the identity (a branch line with an empty vector is dropped) -/
+example : (∀ c : Cov, Good c → ObsEq (rtCov c) c ∧ Good (rtCov c))
+    ∧ rtCov { branches := [(9, [])] } ≠ { branches := [(9, [])] }
+    ∧ rtCov { lines := [(1, 5)], branches := [(3, [false, true])], functions := [([102], ⟨2, true⟩)] }
+        = { lines := [(1, 5)], branches := [(3, [false, true])], functions := [([102], ⟨2, true⟩)] } :=
+  ⟨rtCov_good, by decide, by decide⟩
+
+end Grcov.Props.C06
+
+/-! ## Report level: lists of file records, through the bytes of the lcov report -/
+
+namespace Grcov.Props.C06.Rep
+open Grcov AList Grcov.Props.C01 Grcov.Props.C06 Grcov.Lcov Grcov.Lcov.Spec
+
+/-- a report: one record per file, in the order of the result map -/
+abbrev Report := List (Bytes × Cov)
+
+/-- aggregating two reports in one run: `add_results` of the second onto the first (paths already
+rewritten at the shard stage, so no canonicalisation) -/
+def mergeReports (a b : Report) : Report := addResults id a b
+
+theorem filter_key_nodup (b : Report) (hb : NodupKeys b) (k : Bytes) :
+    (b.filter fun kc => decide (kc.1 = k)).map (·.2) = (get? b k).toList := by
+  induction b with
+  | nil => rfl
+  | cons kc b ih =>
+    obtain ⟨k0, c⟩ := kc
+    obtain ⟨hk, hn⟩ := nodup_cons_keys hb
+    simp only [List.filter_cons, get?_cons]
+    by_cases e : k0 = k
+    · subst e
+      have hnone : get? b k0 = none := (get?_eq_none_iff b k0).mpr hk
+      have := ih hn
+      simp only [decide_true, if_true, List.map_cons]
+      rw [this, hnone]; rfl
+    · simp only [e, decide_false, Bool.false_eq_true, if_false]; exact ih hn
+
+theorem get?_mergeReports (a b : Report) (hb : NodupKeys b) (k : Bytes) :
+    get? (mergeReports a b) k = optCombine merge (get? a k) (get? b k) := by
+  unfold mergeReports
+  rw [get?_addResults]
+  have e : (b.filter fun kc => decide (id kc.1 = k)) = b.filter fun kc => decide (kc.1 = k) := rfl
+  rw [e, filter_key_nodup b hb k]
+  cases get? a k <;> cases get? b k <;> simp [foldInto]
+
+/-- numbers and names fit what the writer can print and the reader's types hold (pointwise form of
+the bounds in `WriterOK`) -/
+structure Bounded (c : Cov) : Prop where
+  lines : ∀ l n, get? c.lines l = some n → l ≤ U32MAX
+  branches : ∀ l v, get? c.branches l = some v → l ≤ U32MAX ∧ v.length ≤ U32MAX
+  fns : ∀ n f, get? c.functions n = some f → noEol n ∧ utf8Lossy n = n ∧ f.start ≤ U32MAX
+
+theorem writerOK_of_bounded (p : Bytes) (c : Cov) (hw : c.WF) (hp : noEol p) (hb : Bounded c) :
+    WriterOK p c :=
+  ⟨hw, hp,
+   fun lc h => hb.lines lc.1 lc.2 (get?_of_mem hw.linesNodup (by cases lc; exact h)),
+   fun lv h => hb.branches lv.1 lv.2 (get?_of_mem hw.branchesNodup (by cases lv; exact h)),
+   fun nf h => hb.fns nf.1 nf.2 (get?_of_mem hw.functionsNodup (by cases nf; exact h))⟩
+
+theorem bounded_merge (a b : Cov) (hbw : b.WF) (ha : Bounded a) (hb : Bounded b) : Bounded (merge a b) := by
+  refine ⟨fun l n h => ?_, fun l v h => ?_, fun n f h => ?_⟩
+  · rw [merge_lines a b hbw] at h
+    cases hA : get? a.lines l with
+    | some x => exact ha.lines l x hA
+    | none =>
+      cases hB : get? b.lines l with
+      | some y => exact hb.lines l y hB
+      | none => rw [hA, hB] at h; simp at h
+  · rw [merge_branches a b hbw] at h
+    cases hA : get? a.branches l with
+    | some x =>
+      cases hB : get? b.branches l with
+      | some y =>
+        rw [hA, hB] at h; simp only [optCombine_some_some, Option.some.injEq] at h; subst h
+        have h1 := ha.branches l x hA
+        have h2 := hb.branches l y hB
+        refine ⟨h1.1, ?_⟩
+        rw [zipOr_length]; exact Nat.max_le.mpr ⟨h1.2, h2.2⟩
+      | none => rw [hA, hB] at h; simp at h; subst h; exact ha.branches l x hA
+    | none =>
+      rw [hA] at h; simp at h; exact hb.branches l v h
+  · rw [merge_functions a b hbw] at h
+    cases hA : get? a.functions n with
+    | some x =>
+      cases hB : get? b.functions n with
+      | some y =>
+        rw [hA, hB] at h; simp only [optCombine_some_some, Option.some.injEq] at h; subst h
+        exact ha.fns n x hA
+      | none => rw [hA, hB] at h; simp at h; subst h; exact ha.fns n x hA
+    | none =>
+      rw [hA] at h; simp at h; exact hb.fns n f h
+
+/-- a report as grcov holds it after reading inputs and rewriting paths: one record per path, paths
+are strings without line terminators, records as the readers produce them within the writer's
+bounds -/
+structure RepOK (r : Report) : Prop where
+  nodup : NodupKeys r
+  recs : ∀ pc ∈ r, noEol pc.1 ∧ utf8Lossy pc.1 = pc.1 ∧ Good pc.2 ∧ Bounded pc.2
+
+/-- in terms of the writer's domain (C05): unique paths, every record writable, paths strings, no
+empty branch vector -/
+theorem repOK_of_writerOK (r : Report) (hn : NodupKeys r)
+    (h : ∀ pc ∈ r, WriterOK pc.1 pc.2 ∧ utf8Lossy pc.1 = pc.1 ∧ ∀ lv ∈ pc.2.branches, lv.2 ≠ []) :
+    RepOK r := by
+  refine ⟨hn, fun pc hpc => ?_⟩
+  obtain ⟨hw, hp, hne⟩ := h pc hpc
+  refine ⟨hw.path, hp, ⟨hw.wf, fun l v hg => hne (l, v) (mem_of_get? hg)⟩,
+    ⟨fun l n hg => hw.lineNos (l, n) (mem_of_get? hg),
+     fun l v hg => hw.branchLines (l, v) (mem_of_get? hg),
+     fun n f hg => hw.fnNames (n, f) (mem_of_get? hg)⟩⟩
+
+theorem repOK_merge (a b : Report) (ha : RepOK a) (hb : RepOK b) : RepOK (mergeReports a b) := by
+  refine ⟨nodupKeys_addResults id a b ha.nodup, fun pc hpc => ?_⟩
+  obtain ⟨k, v⟩ := pc
+  have hg := get?_of_mem (nodupKeys_addResults id a b ha.nodup) hpc
+  rw [show addResults id a b = mergeReports a b from rfl, get?_mergeReports a b hb.nodup] at hg
+  cases hA : get? a k with
+  | some x =>
+    have hx := ha.recs (k, x) (mem_of_get? hA)
+    cases hB : get? b k with
+    | some y =>
+      have hy := hb.recs (k, y) (mem_of_get? hB)
+      rw [hA, hB] at hg; simp only [optCombine_some_some, Option.some.injEq] at hg; subst hg
+      exact ⟨hx.1, hx.2.1, good_merge x y hx.2.2.1 hy.2.2.1, bounded_merge x y hy.2.2.1.1 hx.2.2.2 hy.2.2.2⟩
+    | none => rw [hA, hB] at hg; simp at hg; subst hg; exact hx
+  | none =>
+    rw [hA] at hg; simp at hg
+    exact hb.recs (k, v) (mem_of_get? hg)
+
+theorem nonEmptyVecs_good (c : Cov) (h : Good c) : nonEmptyVecs c.branches = c.branches := by
+  unfold nonEmptyVecs
+  rw [List.filter_eq_self]
+  intro lv hlv
+  have := good_mem c h lv hlv
+  cases hv : lv.2 with
+  | nil => exact absurd hv this
+  | cons t v => rfl
+
+/-- for records without empty branch vectors the reader rebuilds the written record literally -/
+theorem rtCov_of_good (c : Cov) (h : Good c) : rtCov c = c := by
+  rw [rtCov_eq c h.1]
+  unfold dropEmpty; rw [nonEmptyVecs_good c h]
+
+theorem writerOK_of_repOK (r : Report) (h : RepOK r) : ∀ pc ∈ r, WriterOK pc.1 pc.2 :=
+  fun pc hpc => let ⟨h1, _, h3, h4⟩ := h.recs pc hpc; writerOK_of_bounded pc.1 pc.2 h3.1 h1 h4
+
+/-- writing a report and reading it back (with `--branch`) returns the report itself -/
+theorem reimport_repOK (r : Report) (h : RepOK r) : reimport r = some r := by
+  have hp := parse_printLcov r (writerOK_of_repOK r h)
+  have e : (r.map fun pc => (utf8Lossy pc.1, rtCov pc.2)) = r := by
+    rw [List.map_congr_left (g := id)]
+    · simp
+    · intro pc hpc
+      obtain ⟨_, h2, h3, _⟩ := h.recs pc hpc
+      cases pc; simp only [id] at h2 h3 ⊢; rw [h2, rtCov_of_good _ h3]
+  simp only [reimport, hp, e]
+
+/-- direct aggregation: the reports of the leaves merged with the grouping of the tree, nothing
+written or read in between -/
+def evalDirect : Tree Report → Report
+  | .leaf r => r
+  | .node l r => mergeReports (evalDirect l) (evalDirect r)
+
+/-- sharded aggregation through files: every inner node merges the reports of its children, WRITES
+the lcov report (`printLcov`) and the next stage READS those bytes back (`parse true`) -/
+def evalShardedBytes : Tree Report → Option Report
+  | .leaf r => some r
+  | .node l r =>
+    (evalShardedBytes l).bind fun a => (evalShardedBytes r).bind fun b => reimport (mergeReports a b)
+
+theorem evalDirect_repOK (t : Tree Report) (h : ∀ r ∈ t.leaves, RepOK r) : RepOK (evalDirect t) := by
+  induction t with
+  | leaf r => exact h r (by simp [Tree.leaves])
+  | node l r ihl ihr =>
+    simp only [Tree.leaves, List.mem_append] at h
+    exact repOK_merge _ _ (ihl fun x hx => h x (Or.inl hx)) (ihr fun x hx => h x (Or.inr hx))
+
+theorem evalShardedBytes_eq (t : Tree Report) (h : ∀ r ∈ t.leaves, RepOK r) :
+    evalShardedBytes t = some (evalDirect t) := by
+  induction t with
+  | leaf r => rfl
+  | node l r ihl ihr =>
+    simp only [Tree.leaves, List.mem_append] at h
+    have hl := ihl fun x hx => h x (Or.inl hx)
+    have hr := ihr fun x hx => h x (Or.inr hx)
+    simp only [evalShardedBytes, hl, hr, Option.bind_some, evalDirect]
+    exact reimport_repOK _ (repOK_merge _ _ (evalDirect_repOK l fun x hx => h x (Or.inl hx))
+      (evalDirect_repOK r fun x hx => h x (Or.inr hx)))
+
+/-- the record of file `k` in a report, an absent file read as the empty record -/
+def covAt (r : Report) (k : Bytes) : Cov := (get? r k).getD {}
+
+theorem empty_wf : ({} : Cov).WF := Cov.empty_wf
+
+theorem covAt_wf (r : Report) (h : RepOK r) (k : Bytes) : (covAt r k).WF := by
+  unfold covAt
+  cases hg : get? r k with
+  | none => exact empty_wf
+  | some c => exact (h.recs (k, c) (mem_of_get? hg)).2.2.1.1
+
+theorem obsEq_merge_empty_left (b : Cov) (hb : b.WF) : ObsEq (merge {} b) b :=
+  ⟨fun l => by rw [merge_lines _ _ hb]; simp, fun l => by rw [merge_branches _ _ hb]; simp,
+   fun n => by rw [merge_functions _ _ hb]; simp⟩
+
+theorem covAt_mergeReports (a b : Report) (_ha : RepOK a) (hb : RepOK b) (k : Bytes) :
+    ObsEq (covAt (mergeReports a b) k) (merge (covAt a k) (covAt b k)) := by
+  unfold covAt
+  rw [get?_mergeReports a b hb.nodup]
+  cases hA : get? a k with
+  | some x =>
+    cases hB : get? b k with
+    | some y => simp only [optCombine_some_some, Option.getD_some]; exact obsEq_refl _
+    | none => simp only [optCombine_none_right, Option.getD_some, Option.getD_none]
+              exact obsEq_refl _
+  | none =>
+    cases hB : get? b k with
+    | some y =>
+      simp only [optCombine_none_left, Option.getD_some, Option.getD_none]
+      exact obsEq_symm (obsEq_merge_empty_left y (hb.recs (k, y) (mem_of_get? hB)).2.2.1.1)
+    | none => simp only [optCombine_none_left, Option.getD_none]; exact obsEq_refl _
+
+/-- the tree of the records of one file -/
+def Tree.at (k : Bytes) : Tree Report → Tree Cov
+  | .leaf r => .leaf (covAt r k)
+  | .node l r => .node (Tree.at k l) (Tree.at k r)
+
+theorem leaves_at (k : Bytes) (t : Tree Report) : (Tree.at k t).leaves = t.leaves.map (covAt · k) := by
+  induction t with
+  | leaf r => rfl
+  | node l r ihl ihr => simp [Tree.at, Tree.leaves, ihl, ihr]
+
+theorem covAt_evalDirect (t : Tree Report) (h : ∀ r ∈ t.leaves, RepOK r) (k : Bytes) :
+    ObsEq (covAt (evalDirect t) k) (Tree.at k t).eval := by
+  induction t with
+  | leaf r => exact obsEq_refl _
+  | node l r ihl ihr =>
+    simp only [Tree.leaves, List.mem_append] at h
+    have hl := fun x hx => h x (Or.inl hx)
+    have hr := fun x hx => h x (Or.inr hx)
+    have e := covAt_mergeReports _ _ (evalDirect_repOK l hl) (evalDirect_repOK r hr) k
+    have wr : (Tree.at k r).eval.WF := Tree.eval_wf _ (by
+      intro c hc; rw [leaves_at] at hc
+      simp only [List.mem_map] at hc
+      obtain ⟨x, hx, rfl⟩ := hc; exact covAt_wf x (hr x hx) k)
+    exact obsEq_trans e (merge_congr (covAt_wf _ (evalDirect_repOK r hr) k) wr (ihl hl) (ihr hr))
+
+/-- the files of a merged report are the files of either side -/
+theorem isSome_mergeReports (a b : Report) (hb : NodupKeys b) (k : Bytes) :
+    (get? (mergeReports a b) k).isSome = ((get? a k).isSome || (get? b k).isSome) := by
+  rw [get?_mergeReports a b hb]
+  cases get? a k <;> cases get? b k <;> simp
+
+theorem isSome_evalDirect (t : Tree Report) (h : ∀ r ∈ t.leaves, RepOK r) (k : Bytes) :
+    (get? (evalDirect t) k).isSome = t.leaves.any fun r => (get? r k).isSome := by
+  induction t with
+  | leaf r => simp [evalDirect, Tree.leaves]
+  | node l r ihl ihr =>
+    simp only [Tree.leaves, List.mem_append] at h
+    have hr := fun x hx => h x (Or.inr hx)
+    simp only [evalDirect, Tree.leaves, List.any_append]
+    rw [isSome_mergeReports _ _ (evalDirect_repOK r hr).nodup, ihl fun x hx => h x (Or.inl hx), ihr hr]
+
+end Grcov.Props.C06.Rep
+
+namespace Grcov.Props.C06
+open Grcov AList Grcov.Props.C01 Grcov.Lcov Grcov.Lcov.Spec Grcov.Props.C06.Rep
+
+/-- **Sharding through the bytes of the lcov reports.** For every tree of shards whose leaves are
+reports (lists of (path, record)) as grcov holds them – one record per path, paths and function
+names strings without line terminators, numbers within u32/u64, no empty branch vector –: if every
+inner node merges its children's reports (`add_results`), writes the lcov report and the next
+stage parses those bytes (with `--branch`), then every stage succeeds and the final parse returns
+LITERALLY the report that merging with the same grouping gives without writing anything. -/
+theorem C06_sharding_reports_bytes (t : Tree Report) (h : ∀ r ∈ t.leaves, RepOK r) :
+    evalShardedBytes t = some (evalDirect t) := evalShardedBytes_eq t h
+
+/-- … and that is, file by file, observably the aggregation of all inputs in a single run, in any
+order and grouping: the sharded result lists exactly the files that occur in some input, and for
+every file the same line counts, branch vectors, functions and executed flags as `direct`, any tree
+over a permutation of the same input reports (the left comb is the single run). -/
+theorem C06_sharding_reports (shards direct : Tree Report) (h : ∀ r ∈ shards.leaves, RepOK r)
+    (p : shards.leaves.Perm direct.leaves) :
+    ∃ out, evalShardedBytes shards = some out
+      ∧ (∀ k, (get? out k).isSome = (get? (evalDirect direct) k).isSome)
+      ∧ ∀ k, ObsEq (covAt out k) (covAt (evalDirect direct) k) := by
+  have h' : ∀ r ∈ direct.leaves, RepOK r := fun r hr => h r (p.symm.subset hr)
+  refine ⟨evalDirect shards, evalShardedBytes_eq shards h, fun k => ?_, fun k => ?_⟩
+  · rw [isSome_evalDirect shards h, isSome_evalDirect direct h']
+    exact p.any_eq
+  · have e1 := covAt_evalDirect shards h k
+    have e2 := covAt_evalDirect direct h' k
+    have pk : (Tree.at k shards).leaves.Perm (Tree.at k direct).leaves := by
+      rw [leaves_at, leaves_at]; exact p.map _
+    have hw : ∀ c ∈ (Tree.at k shards).leaves, c.WF := by
+      intro c hc; rw [leaves_at] at hc
+      simp only [List.mem_map] at hc
+      obtain ⟨x, hx, rfl⟩ := hc; exact covAt_wf x (h x hx) k
+    exact obsEq_trans e1 (obsEq_trans (C01_grouping_invariant _ _ hw pk) (obsEq_symm e2))
+
+/-- the statement for intermediate reports re-read WITHOUT `--branch`: the stage is lossless -/
+def C06_reimport_without_branch_flag_stmt : Prop :=
+  ∀ r : Report, RepOK r → parse false (printLcov r) = .ok r
+
+/-- It is false: a record that carries branch data although `--branch` is off (what the JaCoCo
+reader produces, known finding C06-jacoco-branches-without-branch-flag) loses it when the
+intermediate lcov report is re-read without `--branch`, while a single direct run reports it. -/
+theorem C06_reimport_without_branch_flag_false : ¬ C06_reimport_without_branch_flag_stmt := by
+  intro hstmt
+  have hr : RepOK [([97], { branches := [(1, [true])] })] := by
+    refine repOK_of_writerOK _ (by simp [NodupKeys, keys]) fun pc hpc => ?_
+    simp only [List.mem_singleton] at hpc; subst hpc
+    refine ⟨⟨⟨?_, ?_, ?_, ?_⟩, ?_, ?_, ?_, ?_⟩, by decide, by simp⟩ <;>
+      simp [NodupKeys, keys, U32MAX, noEol, LF, CR]
+  have := hstmt _ hr
+  revert this; decide +kernel
+
+/-- What does hold without `--branch`: the intermediate report is read back to the same files, lines
+and functions with the branch data removed; so the stage is lossless exactly for reports that
+carry no branch data (the guard the JaCoCo finding violates). -/
+theorem C06_reimport_without_branch_flag_partial (r : Report) (h : RepOK r) :
+    parse false (printLcov r) = .ok (r.map fun pc => (pc.1, { pc.2 with branches := [] }))
+    ∧ ((∀ pc ∈ r, pc.2.branches = []) → parse false (printLcov r) = .ok r) := by
+  have hp := parse_printLcov_off r (writerOK_of_repOK r h)
+  have e : (r.map fun pc => (utf8Lossy pc.1, rtCovOff pc.2))
+      = r.map fun pc => (pc.1, { pc.2 with branches := [] }) := by
+    apply List.map_congr_left
+    intro pc hpc
+    obtain ⟨_, h2, h3, _⟩ := h.recs pc hpc
+    rw [h2]; simp only [rtCovOff, rtCov_of_good _ h3]
+  rw [hp, e]
+  refine ⟨rfl, fun hb => ?_⟩
+  congr 1
+  rw [List.map_congr_left (g := id)]
+  · simp
+  · intro pc hpc
+    obtain ⟨p, c⟩ := pc
+    have := hb (p, c) hpc
+    simp only at this
+    cases c; simp_all
+
+/-- non-vacuity: two shard reports that share a file, with a saturating line, branch vectors of
+different length and a comma in the path, are in the domain of `C06_sharding_reports` -/
+example : RepOK [([97, 44, 98], { lines := [(1, U64MAX)], branches := [(3, [false, true])],
+                                  functions := [([195, 169], ⟨4, true⟩)] })]
+    ∧ evalShardedBytes (.node (.leaf [([97, 44, 98], { lines := [(1, U64MAX)], branches := [(3, [false, true])] })])
+                              (.leaf [([97, 44, 98], { lines := [(1, 2), (2, 0)], branches := [(3, [true])] }), ([99], {})]))
+      = some [([97, 44, 98], { lines := [(1, U64MAX), (2, 0)], branches := [(3, [true, true])] }), ([99], {})] := by
+  refine ⟨repOK_of_writerOK _ (by simp [NodupKeys, keys]) fun pc hpc => ?_, by decide +kernel⟩
+  simp only [List.mem_singleton] at hpc; subst hpc
+  refine ⟨⟨⟨?_, ?_, ?_, ?_⟩, ?_, ?_, ?_, ?_⟩, by decide, by simp⟩ <;>
+    simp [NodupKeys, keys, U64MAX, U32MAX, noEol, LF, CR] <;> decide
 
 end Grcov.Props.C06
